@@ -291,6 +291,18 @@ def coq_eval(mod, cases, obs, rundir, chunk=400):
     def one(item):
         k, f = item
         rc, out, _ = run(["bash", "-c", f"ulimit -s unlimited 2>/dev/null; exec coqc -Q . SPV {f}"], cwd=COQ, timeout=1800)
+        if rc == 0 and not os.environ.get("VERIF_KEEP_CASES"):
+            # the generated case files of a thorough run are gigabytes: keep only chunks that failed to evaluate
+            base = os.path.join(COQ, f[:-2])
+            for ext in (".v", ".vo", ".vok", ".vos", ".glob"):
+                try:
+                    os.remove(base + ext)
+                except OSError:
+                    pass
+            try:
+                os.remove(os.path.join(os.path.dirname(base), "." + os.path.basename(base) + ".aux"))
+            except OSError:
+                pass
         return k, rc, out
 
     bad_model, bad_spec, out_scope, errors = [], [], [], []
